@@ -137,7 +137,12 @@ func (bc *Blockchain) PrevalidateBlock(b *block.Block, txs []*transaction.Transa
 				}
 			}
 			// verify that side block's difficulty is at least 2/3 of current block difficulty
-			if !block.ValidPowHash32(randomvirel.PowHash(seed, side.MiningBlob().Serialize()), b.Difficulty.Mul64(2).Div64(3)) {
+			sideDiff := b.Difficulty.Mul64(2).Div64(3)
+			if sideDiff.IsZero() {
+				// 2/3 of difficulty 1 rounds down to zero and ValidPowHash32 divides by the difficulty
+				sideDiff = b.Difficulty
+			}
+			if !block.ValidPowHash32(randomvirel.PowHash(seed, side.MiningBlob().Serialize()), sideDiff) {
 				return fmt.Errorf("commitment does not meet difficulty")
 			}
 		}
